@@ -115,11 +115,11 @@ CLAIMED = {
           "C15_rcpt_params_gated (per extension: the line is the address plus one piece per extension, each empty unless that extension is in "
           "the latest capability list; a requested REQUIRETLS/SMTPUTF8 is on the line), C15_call_whole_lines / C15_one_line_per_call / "
           "C15_history_keeps_premises (whole calls of the client model, any peer: Hello, Verify, Mail, Rcpt, Reset, Noop, Quit write whole "
-          "lines x CRLF without CR/LF in x, one per call plus at most two for the implicit EHLO/HELO, along every history). Implementation: line-discipline and "
+          "lines x CRLF without CR/LF in x, one per call plus at most two for the implicit EHLO/HELO, along every history), C15_auth_whole_lines (the Auth call, any mechanism name, initial response, script of the caller's sasl.Client and peer: whole lines only - AUTH line, one base64 response or cancel token per round; a mechanism name with CR/LF writes nothing of its own, repaired in b0235b7). Implementation: line-discipline and "
           "negotiated-parameter monitor on the real client over extension subsets x option subsets, EHLO twice, HELO fallback (also after Reset), "
           "hostile strings in every string argument; compared with the Lean client model.",
           "DESIGN.md 0.3 + 7 C15", "Lean 4 proof (command-line builders) + monitors + differential correspondence (cconv probe)",
-          "per-extension gating beyond the empty extension set, and 'one line per protocol step' across a whole call, are decided by the monitor + correspondence"),
+          "DATA calls (the message body is not made of command lines) are decided by the monitor + correspondence"),
  "C16": C('Proved: C16_wire_terminated and C16_roundtrip (for every body with CR only in CRLF, in ANY partition into Write calls and for ANY backend read sizes, dot-writer composed with the DATA reader delivers exactly the body with bare LF -> CRLF and a final CRLF ensured, and the command stream resumes behind the marker), C16_partition_independent, C16_roundtrip_progress, C16_second_close. Implementation: what the client writes is read back with the DATA specification; e2e probe real client -> real server (token bodies, 500-9000-octet bodies around buffer boundaries, partitions, verdicts, stale writer handles).',
           'DESIGN.md 0.3 + 7 C16', 'Lean 4 proof (dot writer o DATA reader) + specification read-back + differential correspondence (cconv, e2e probes)',
           "textproto.dotWriter and bufio.Writer are modelled (tied by the cconv correspondence); 'Close returns the server's verdict' is decided by the e2e judge"),
